@@ -437,17 +437,17 @@ def judge_default_socket(case):
     base = {'side': 'relay-default-socket', 'proto': case['proto']}
     try:
         p = subprocess.run([sys.executable, os.path.join(here, 'conformance', 'default_socket.py'), repo, case['proto']],
-                           stdout=subprocess.PIPE, stderr=subprocess.DEVNULL, timeout=8)
+                           stdout=subprocess.PIPE, stderr=subprocess.DEVNULL, timeout=60)
         line = [l for l in p.stdout.decode('utf-8', 'replace').splitlines() if l.startswith('RESULT ')]
     except subprocess.TimeoutExpired:
         return [(dict(base, kind='attempt-never-returned'), '%s relay built without a socket_creator, peer accepts the connection and stays silent, '
-                 'timeouts 0.5 s: the attempt (and the whole process) was still blocked after 8 s' % case['proto'].upper())]
+                 'timeouts 0.5 s: the attempt (and the whole process) was still blocked after 60 s' % case['proto'].upper())]
     if not line and b'SKIP' in p.stdout:
         return []          # no loopback interface in this sandbox: the probe cannot run (the in-memory cases still do)
     if not line:
         return [(dict(base, kind='probe-failed'), 'default-socket probe produced no result (exit %d)' % p.returncode)]
     _, what, secs = line[0].split()
-    if what != 'transient' or float(secs) > 3.0:
+    if what != 'transient' or float(secs) > 20.0:      # real time on a possibly busy machine: generous, a hang is what matters
         return [(dict(base, kind='timeout-not-transient' if what != 'transient' else 'attempt-returned-late'),
                  '%s relay built without a socket_creator against a silent peer: %s after %s s (timeouts 0.5 s)' % (case['proto'].upper(), what, secs))]
     return []
